@@ -13,6 +13,12 @@ pub struct GoSpec {
     pub binc: Option<u64>,
     pub movestogo: Option<u32>,
     pub infinite: bool,
+    /// that side has overstepped: its clock value is sent negative (GUIs that do not enforce the flag do
+    /// this; only ever used for the side that is NOT to move)
+    #[serde(default)]
+    pub wtime_negative: bool,
+    #[serde(default)]
+    pub btime_negative: bool,
 }
 
 impl GoSpec {
@@ -35,10 +41,10 @@ impl GoSpec {
     pub fn line(&self) -> String {
         let mut s = String::from("go");
         if let Some(v) = self.wtime {
-            s += &format!(" wtime {v}");
+            s += &format!(" wtime {}{v}", if self.wtime_negative { "-" } else { "" });
         }
         if let Some(v) = self.btime {
-            s += &format!(" btime {v}");
+            s += &format!(" btime {}{v}", if self.btime_negative { "-" } else { "" });
         }
         if let Some(v) = self.winc {
             s += &format!(" winc {v}");
